@@ -77,7 +77,7 @@ if fid == 'F-46':
 if fid == 'F-37':
     text, errs, _ = apply_ops(w['doc'], w['ops'])
     out(errs == [None] and not text.lstrip().startswith('let'), 'emitted %r' % text)
-if fid in ('F-02', 'F-04'):
+if fid in ('F-02', 'F-04', 'F-50', 'F-51', 'F-52'):
     from render_oracles import judge
     r = parse(w['input']).rebuild()
     v = judge(prop, w['input'], r, lambda t: parse(t).rebuild())
